@@ -9,7 +9,7 @@ CONC = ("C06", "C07")
 REFINES = ["Verif.Rec.refines", "Verif.Fifo.refines", "Verif.Rr.refines", "Verif.Lfu.refines", "Verif.Lfuda.refines",
            "Verif.Tlru.refines", "Verif.Utlru.refines", "Verif.UtMap.refines"]
 REFINES_TTL = ["Verif.Tlru.refines", "Verif.Utlru.refines", "Verif.UtMap.refines"]
-LIFT = ["Verif.Refines.runA", "Verif.Core.runA_eq", "Verif.Verified.history_is_run"]
+LIFT = ["Verif.Refines.runA", "Verif.Core.runA_eq", "Verif.Verified.history_is_run", "Verif.Accept.accept_sound", "Verif.Accept.succ?_sound"]
 BUNDLES = ["Verif.lruV", "Verif.mruV", "Verif.fifoV", "Verif.rrV", "Verif.lfuV", "Verif.lfudaV", "Verif.tlruV",
            "Verif.utlruV", "Verif.utmapV"]
 
@@ -18,7 +18,7 @@ TRUSTED_BASE = [
     "the hand-written models lean/Verif/Model/*.lean as a reading of inc/cappuccino/*.hpp: checked every run by the correspondence harness (real headers, same scripts, outputs + observers + sweeps compared), to the extent of the scripts executed",
     "std::list / std::vector / std::unordered_map / std::map / std::multimap behave per their standard contracts (modelled as lists; multimap::emplace inserts after equal keys)",
     "the harness: virtual steady_clock (link-time override of steady_clock::now), pinned random_device, twin replay for sweeps of TTL containers, canonical output",
-    "the Lean driver's parser, acceptor (Accept.lean) and twin comparisons (Twin.lean): executed, not proved about",
+    "the Lean driver's parser and twin comparisons (Twin.lean): executed, not proved about; the acceptor (Accept.lean) is proved sound - a log it accepts is a run of the reference semantics explaining every output, observer and sweep (Accept.accept_sound) - its completeness (no false alarm) and its attribution of a rejected event to properties are not proved",
     "g++ 12.2 / libstdc++ 12 / ASan+UBSan+_GLIBCXX_DEBUG as the meaning of what the code does",
 ]
 
@@ -84,8 +84,10 @@ PROPS = {
                 explain="Theorem Core.C18_preTrivial (eight caches): a range call leaves the model in exactly the state of its single calls in order and returns their aggregate; ut_map/ut_set: C18_utmap for non-empty ranges and positive TTL. Checked directly on the implementation by twin instances (range vs singles, all later calls compared)."),
     "C19": dict(kinds=ALL, modes=["c19"], judge="TWIN", quick=300, thorough=8000,
                 theorems=["Verif.C19_lru", "Verif.C19_mru", "Verif.C19_fifo", "Verif.C19_rr", "Verif.C19_lfu", "Verif.C19_lfuda",
-                          "Verif.C19_tlru", "Verif.C19_utlru", "Verif.C19_utmap"],
-                explain="Theorems C19_<container>: a call that by its own result had no effect (peek lookup, miss, rejected insert, erase of an absent key) leaves the model state exactly as it was (six non-TTL caches), or removes only entries that had already expired (tlru/utlru), or does exactly what the per-call purge does (ut_map/ut_set). PARTIAL for the four TTL containers: that two states differing only by already-expired entries answer every later call alike except size()/erase/update-only results is checked on the implementation by the twin runs, not proved. Checked directly on the implementation by twin instances (H vs H with no-effect calls spliced in)."),
+                          "Verif.C19_tlru", "Verif.C19_utlru", "Verif.C19_utmap",
+                          "Verif.Bisim.step_tlru", "Verif.Bisim.step_utlru", "Verif.Bisim.run_tlru", "Verif.Bisim.run_utlru",
+                          "Verif.Bisim.rel_of_removed", "Verif.BisimUt.step_utmap", "Verif.BisimUt.rel_of_purge"],
+                explain="Theorems C19_<container>: a call that by its own result had no effect (peek lookup, miss, rejected insert, erase of an absent key) leaves the model state exactly as it was (six non-TTL caches), or removes only entries that had already expired (tlru/utlru), or does exactly what the per-call purge does (ut_map/ut_set). The continuation half for the TTL containers is Bisim.run_tlru / run_utlru / BisimUt.step_utmap: two states whose parts not yet expired at t0 coincide (entries in recency order and the ttl structure in deadline order; for ut_map/ut_set: equal after the purge at t0) return the same result for every later call and stay so related, except size(), empty(), the count of clean_expired_values(), and erase / update-only calls addressed to a key that is resident-but-expired on one side; rel_of_removed / rel_of_purge show that what a no-effect call may do (C19_tlru/utlru/utmap: remove already-expired entries) lands in that relation. Checked directly on the implementation by twin instances (H vs H with no-effect calls spliced in)."),
     "C20": dict(kinds=["utlru", "utmap"], modes=["c20"], judge="TWIN", quick=600, thorough=20000,
                 theorems=["Verif.C20_utlru", "Verif.C20_utmap", "Verif.Utlru.ttl_ms"],
                 explain="Theorems C20_utlru / C20_utmap: clear() leaves exactly the state of a newly constructed container with the same capacity and the configured TTL; checked on the implementation by twin instances (after clear vs fresh, same continuation)."),
